@@ -43,6 +43,11 @@ def fe_pool(r, n_rand):
             # all limbs near max
             v = sum((((1 << 51) - 1 - r.below(4)) << (51 * i)) for i in range(5))
             out.append(("limbmax", v % (1 << 256)))
+    # values sharing a byte prefix (from the top) with the modulus / with 2^255: the region where a word- or limb-wise
+    # comparison with p can go wrong while byte-wise random values never get near it
+    for c in (P, 1 << 255):
+        for j in range(1, 32, 3):
+            out.append(("prefix_p" if c == P else "prefix_2^255", ((c >> (8 * j)) << (8 * j)) | r.below(1 << (8 * j))))
     for i in range(max(6, n_rand // 3)):
         l5 = ripple(r, [51] * 5)
         out.append(("ripple51", sum(x << (51 * i) for i, x in enumerate(l5))))
@@ -59,6 +64,14 @@ def sc_pool(r, n_rand):
              ("80..", int("80" * 32, 16)), ("7f..", int("7f" * 32, 16)), ("R", (1 << 260) % L), ("R-1", (1 << 260) % L - 1), ("(l-1)/2", (L - 1) // 2),
              ("2^64", 1 << 64), ("2^64-1", (1 << 64) - 1), ("2^128", 1 << 128), ("2^192-1", (1 << 192) - 1), ("2^52", 1 << 52), ("2^29", 1 << 29)]
     out = list(fixed)
+    # values sharing a byte prefix (from the top) with l, 2l, 2^252: where a word- or limb-wise comparison with l can go
+    # wrong (the top words equal those of l, the lower ones random / extreme)
+    for c, cl in ((L, "prefix_l"), (2 * L, "prefix_2l"), (1 << 252, "prefix_2^252")):
+        for j in (1, 2, 4, 7, 8, 9, 12, 15, 16, 17, 20, 23, 24, 25, 28, 31):
+            base = (c >> (8 * j)) << (8 * j)
+            out.append((cl, base | r.below(1 << (8 * j))))
+            out.append((cl + "_hi", base | ((1 << (8 * j)) - 1 - r.below(min(1 << 16, 1 << (8 * j))))))
+            out.append((cl + "_top", base | (1 << (8 * j - 1)) | r.below(min(1 << 16, 1 << (8 * j - 1)))))
     for i in range(n_rand):
         k = r.below(6)
         if k == 0:
